@@ -1222,13 +1222,22 @@ public:
  * @param ... Arguments to function should be simple or tainted values.
  * @return Tainted value or void.
  */
+// The name under which a function is looked up (and reported to the transition
+// hooks) is the name the call designates after macro expansion, i.e. the one
+// decltype(func_name) and a plain call func_name(...) refer to: library headers
+// rename entry points with object-like macros (#define gzopen gzopen64). An
+// operand of # is not expanded, hence the second level.
+#define RLBOX_DETAIL_STRINGIZE_EXPANDED(func_name)                             \
+  RLBOX_DETAIL_STRINGIZE(func_name)
+#define RLBOX_DETAIL_STRINGIZE(func_name) #func_name
+
 #ifdef RLBOX_USE_STATIC_CALLS
 
 #  define sandbox_lookup_symbol_helper(prefix, func_name) prefix(func_name)
 
 #  define invoke_sandbox_function(func_name, ...)                              \
     template INTERNAL_invoke_with_func_ptr<decltype(func_name)>(               \
-      #func_name,                                                              \
+      RLBOX_DETAIL_STRINGIZE_EXPANDED(func_name),                              \
       sandbox_lookup_symbol_helper(RLBOX_USE_STATIC_CALLS(), func_name),       \
       ##__VA_ARGS__)
 
@@ -1240,10 +1249,11 @@ public:
 
 #  define invoke_sandbox_function(func_name, ...)                              \
     template INTERNAL_invoke_with_func_name<decltype(func_name)>(              \
-      #func_name, ##__VA_ARGS__)
+      RLBOX_DETAIL_STRINGIZE_EXPANDED(func_name), ##__VA_ARGS__)
 
 #  define get_sandbox_function_address(func_name)                              \
-    template INTERNAL_get_sandbox_function_name<decltype(func_name)>(#func_name)
+    template INTERNAL_get_sandbox_function_name<decltype(func_name)>(          \
+      RLBOX_DETAIL_STRINGIZE_EXPANDED(func_name))
 
 #endif
 
